@@ -50,7 +50,10 @@ d = "/verif/seeded/%s" % sid
 os.makedirs(d, exist_ok=True)
 for f in os.listdir(src):
     if os.path.getsize(os.path.join(src, f)) < 2_000_000:
-        shutil.copy(os.path.join(src, f), d)
+        if os.path.isdir(os.path.join(src, f)):
+            shutil.copytree(os.path.join(src, f), os.path.join(d, f), dirs_exist_ok=True)
+        else:
+            shutil.copy(os.path.join(src, f), d)
 meta = json.load(open(os.path.join(src, "meta.json"))) if os.path.exists(os.path.join(src, "meta.json")) else {}
 meta["lead_confirmation"] = out
 json.dump(meta, open(os.path.join(d, "meta.json"), "w"), indent=1)
